@@ -46,6 +46,9 @@ func genStoreFor(r *Rng, batch int, style string) []KV {
 
 func genC03(seed uint64, i int, tier string) *Scenario {
 	r := NewRng(seed)
+	if i%20011 == 19 {
+		return genC03Big(r)
+	}
 	style := pick(r, []string{StoreMixed, StoreInts, StoreNum, StoreText, StoreJSON, StoreMixed, StoreCollide, StoreUnicode})
 	g := newGen(r, style)
 	b := pickBatch(r)
